@@ -58,6 +58,18 @@ CHECKS["C15"] = dict(
     technique="deterministic simulation with fault injection: seeded fault/schedule search with wire-tap identity oracle and id-uniqueness invariants",
 )
 
+CHECKS["C18"] = dict(
+    level="exploration",
+    text="Two real Btp engines (central + peripheral) joined by a simulated ordered GATT link with tape-drawn per-segment delays and stalls "
+         "(up to beyond the 15 s acknowledgement deadline and the 30 s idle timeout), clock skew and scheduler deviations: every message "
+         "arrives exactly once, unmodified, in order (bounded liveness once the link is healthy), no end exceeds the negotiated window, "
+         "acknowledgements meet the deadline, good ends never refuse each other. Hostile-peer family: one good engine (either role) fed "
+         "generated protocol-violating segments; no panic (overflow checks on), delivered data equals what a reference reassembler derives "
+         "from the accepted segments, the good end respects the hostile peer's window.",
+    design="DESIGN.md §4 C18",
+    technique="deterministic simulation with fault injection: seeded link-stall/schedule search over two engines + hostile segment generator with reference reassembler",
+)
+
 NOT_APPLICABLE = {
     "C05": "pure function of (ACL entries, accessor, request): no schedule, clock, fault or history to simulate; stateful neighbours are covered by C06/C07",
     "C16": "pure function of a byte string / value tree (TLV codec): no schedule, clock, fault, crash or history; fuzzing/Kani territory, not deterministic simulation",
